@@ -635,7 +635,11 @@ fn rendering(acc: &mut Acc) {
             for rid in [None, Some("r1"), Some("<r&2>")] {
                 for status in [None, Some(418u16)] {
                     for headers in 0..4usize {
-                        for via in ["to_http_response", "backend", "backend-keep-alive"] {
+                        for via in ["to_http_response", "backend", "backend-keep-alive", "access-hook", "auth-provider", "route-handler"] {
+                            // (the three hook paths: every code, the first five messages, one request id)
+                            if matches!(via, "access-hook" | "auth-provider" | "route-handler") && (mi > 4 || rid == Some("<r&2>")) {
+                                continue;
+                            }
                             // (the keep-alive path of CompleteMultipartUpload renders a late error into a body that has already
                             //  begun; one message shape per code is enough for the path, the table product runs on the other two)
                             if via == "backend-keep-alive" && (mi > 4 || rid == Some("<r&2>")) {
@@ -675,6 +679,28 @@ fn rendering(acc: &mut Acc) {
                                     CallOutcome::Response(r) => r,
                                     other => {
                                         a.fail("C04/render/no-response-for-backend-error", ci, id(), other.verdict(), json!({}));
+                                        continue;
+                                    }
+                                }
+                            } else if matches!(via, "access-hook" | "auth-provider" | "route-handler") {
+                                // the same error returned by S3Access::check, by S3Auth::get_secret_key, by S3Route::call
+                                let (c2, m2, r2) = (code_txt.to_owned(), msg.map(str::to_owned), rid.map(str::to_owned));
+                                let f: ErrFactory = Arc::new(move || make_error(&c2, m2.as_deref(), r2.as_deref(), status, headers));
+                                let (cfg, req) = match via {
+                                    // (the access hook is consulted only when a provider is configured)
+                                    "access-hook" => (SvcCfg { keys: Some(vec![(AK.into(), SK.into())]), access: AccessMode::FailWith, fail_with: Some(f), ..Default::default() }, Req::new("GET", "/bkt/k").header("host", HOST)),
+                                    "route-handler" => (SvcCfg { route: RouteMode::FailWith, fail_with: Some(f), ..Default::default() }, Req::new("GET", "/bkt/k").header("host", HOST)),
+                                    _ => {
+                                        let mut r = Req::new("GET", "/bkt/k").header("host", HOST);
+                                        sign_v4_header(&mut r, SK, &Scope::new(AK, DAY, REGION, "s3"), DATE, &sha256_hex(b""), &[]);
+                                        (SvcCfg { keys: Some(vec![(AK.into(), SK.into())]), auth_fails: true, fail_with: Some(f), ..Default::default() }, r)
+                                    }
+                                };
+                                let (svc, _log) = cfg.build();
+                                match call(&svc, &req, body_one_frame(b"")) {
+                                    CallOutcome::Response(r) => r,
+                                    other => {
+                                        a.fail(&format!("C04/render/no-response-for-{via}-error"), ci, id(), other.verdict(), json!({}));
                                         continue;
                                     }
                                 }
@@ -758,7 +784,7 @@ pub fn run(ctx: &Ctx) -> (Acc, Report) {
     let k = ctx.tier.pick(2, 3);
     let rep = Report {
         level: "exploration",
-        rule: format!("(a) 19 valid base requests (anonymous GET/HEAD/list, V4 header with unsigned / signed / chunk-signed payload, V4 presigned, V2 header, V2 presigned, POST form, XML PUT, copy, ranged GET; and six signed requests that do not hash the payload - unsigned payload, presigned, SigV2, chunk-signed - on operations whose body is a buffered XML or policy document) x 16 service configurations x every combination of at most {k} deviations (triples on 2 configurations) out of {n_single} single deviations: 9 methods, 21 paths, 42 queries, 32 interpreted headers x {{absent, empty, garbage, opaque bytes >= 0x80, plausible-but-wrong, duplicated}}, 5 bodies incl. I/O errors, 2 HTTP versions. (a2) {n_chars} character-level deviations: every decoded text the adapter interprets (each query parameter value of each base - the presigned-URL parameters of both signature versions among them -, the key, the copy source, each field of the POST form) with a 2-, 3- and 4-byte character, NUL, '%' and '/' written over and inserted at every byte offset, on 4 configurations. Oracle: no panic, no hang, Ok(response), and for status >= 400 a well-formed <Error> document whose code has that status in data/s3_error_codes.json. (b) every code of the error table + 2 custom codes x 10 messages x 3 request ids x status override x 4 header maps (none, one, three, one with a name attached twice) x {{S3Error::to_http_response, backend error through GetObject}}. Distinct by id."),
+        rule: format!("(a) 19 valid base requests (anonymous GET/HEAD/list, V4 header with unsigned / signed / chunk-signed payload, V4 presigned, V2 header, V2 presigned, POST form, XML PUT, copy, ranged GET; and six signed requests that do not hash the payload - unsigned payload, presigned, SigV2, chunk-signed - on operations whose body is a buffered XML or policy document) x 16 service configurations x every combination of at most {k} deviations (triples on 2 configurations) out of {n_single} single deviations: 9 methods, 21 paths, 42 queries, 32 interpreted headers x {{absent, empty, garbage, opaque bytes >= 0x80, plausible-but-wrong, duplicated}}, 5 bodies incl. I/O errors, 2 HTTP versions. (a2) {n_chars} character-level deviations: every decoded text the adapter interprets (each query parameter value of each base - the presigned-URL parameters of both signature versions among them -, the key, the copy source, each field of the POST form) with a 2-, 3- and 4-byte character, NUL, '%' and '/' written over and inserted at every byte offset, on 4 configurations. Oracle: no panic, no hang, Ok(response), and for status >= 400 a well-formed <Error> document whose code has that status in data/s3_error_codes.json. (b) every code of the error table + 2 custom codes x 10 messages x 3 request ids x status override x 4 header maps (none, one, three, one with a name attached twice) x {{S3Error::to_http_response, backend error through GetObject, late backend error of the keep-alive operation, and the same error returned by S3Access::check, by S3Auth::get_secret_key and by a custom route's handler}}. Distinct by id."),
         exhaustive: true,
         extra: json!({"single_deviations": n_single, "character_level_deviations": n_chars, "error_codes": ERROR_TABLE.len()}),
         assumptions: vec!["a transport failure after an injected body I/O error is not judged (it is a transport problem, not a request problem)".into(), "requests the http crate itself refuses cannot reach the adapter and are outside the space".into(), "messages do not contain a bare carriage return (XML line-end normalisation is C13's subject)".into()],
